@@ -15,6 +15,11 @@ Theorem C03_op_tables_partial : forall cat cls, In (cat, cls) all_ops ->
 Proof. exact op_tables_partial. Qed.
 Print Assumptions C03_op_tables_partial.
 
+(* full statement: executed semantics included, for all 42 operators *)
+Theorem C03_op_tables : forall cat cls, In (cat, cls) all_ops -> op_ok true cat cls = true.
+Proof. intros cat cls H. exact (op_tables_partial cat cls H). Qed.
+Print Assumptions C03_op_tables.
+
 Theorem C03_no_unknown_operator : forall r, In r ins_ops -> In (fst r) (map snd all_ops).
 Proof. exact instrumenter_ops_are_language_ops. Qed.
 Print Assumptions C03_no_unknown_operator.
